@@ -24,6 +24,8 @@ def run_check(pid, tier, root, seed=0):
     try:
         prog = Program(root, with_examples=(tier == 'thorough' and getattr(mod, 'WANTS_EXAMPLES', False)))
         mod.run(prog, check)
+        if tier == 'thorough':
+            metamorphic_audit(mod, pid, root, check)
         cmd = '/venv/bin/python -m sfcv check %s --tier %s' % (pid, tier)
         return report.finish(check, seed, cmd)
     except AnalysisError as e:
@@ -34,6 +36,30 @@ def run_check(pid, tier, root, seed=0):
     except Exception:
         report.emit('ANALYSIS-ERROR property=%s internal error in the analyser:\n%s' % (pid, traceback.format_exc()))
         return 2
+
+
+def metamorphic_audit(mod, pid, root, check):
+    """thorough tier: the verdicts must be invariant under meaning-preserving rewrites of the analysed tree"""
+    import shutil
+    from . import audit
+    base = audit.verdict_signature(check)
+    for kind in ('reformat', 'rename', 'all'):
+        tmp = audit.transform_tree(root, kind)
+        try:
+            c2 = report.Check(pid, 'thorough', tmp)
+            p2 = Program(tmp, with_examples=getattr(mod, 'WANTS_EXAMPLES', False))
+            mod.run(p2, c2)
+            sig = audit.verdict_signature(c2)
+        except AnalysisError as e:
+            raise AnalysisError('metamorphic audit (%s): the analyser loses an anchor on a meaning-preserving rewrite: %s' % (kind, e))
+        finally:
+            shutil.rmtree(tmp, ignore_errors=True)
+        same = sig == base
+        check.audit.append('metamorphic %s: %d obligations, verdict signature %s' % (kind, len(c2.obligations), 'unchanged' if same else
+                                                                                   'CHANGED %s -> %s' % (base, sig)))
+        if not same:
+            diff = {k: (base.get(k), sig.get(k)) for k in set(base) | set(sig) if base.get(k) != sig.get(k)}
+            raise AnalysisError('metamorphic audit (%s): verdicts depend on layout / local names: %s' % (kind, diff))
 
 
 def replay(path):
